@@ -29,7 +29,7 @@ def obj_for(src):
     """Compile src (C++ or C, repo-independent) if needed; return object path."""
     is_cxx = src.endswith(".cpp")
     deps = [src] + engine_headers() + glob.glob(os.path.join(os.path.dirname(src), "*.hpp")) + \
-        glob.glob(os.path.join(os.path.dirname(src), "*.inc"))
+        glob.glob(os.path.join(os.path.dirname(src), "*.inc")) + glob.glob(os.path.join(VERIF, "props", "*", "*.hpp"))
     flags = CXXFLAGS if is_cxx else CFLAGS
     key = _hash(deps, flags)
     rel = os.path.relpath(src, VERIF).replace("/", "_")
